@@ -4,6 +4,13 @@ from hndbase import *
 
 def announce_scenario(rng, n, plens, outgoing):
     ev, init = greet(rng, outgoing, n)
+    if outgoing and rng.random() < 0.5:
+        # pieces completed on other connections while the remote's handshake is still awaited (we dialled: our
+        # handshake and bitfield are already out, so these must be announced later, not dropped)
+        pre = [ev_bhave(rng.randrange(n)) for _ in range(rng.choice([1, 2, 3]))]
+        if rng.random() < 0.3:
+            pre.append(ev_bown(rng.choice([True, False])))
+        ev = ev[:1] + pre + ev[1:]
     for _ in range(rng.choice([4, 8, 14])):
         r = rng.random()
         if r < 0.4:
